@@ -118,7 +118,7 @@ def check_case(case) -> Result:
             r.fail("autosave_file_left_behind:uninterrupted", info["autosave_file"])
         if tuple(ref.atom_order) != tuple(ids):
             r.fail("atom_order_not_register_order:uninterrupted", f"{ref.atom_order} vs {ids}")
-        ks = list(range(1, K + 1)) if case["all_k"] else sorted({1, K, max(1, K - 1)} | {1 + (k % K) for k in case["ks"]})
+        ks = list(range(1, K + 1)) if (case["all_k"] or K <= 16) else sorted({1, K, max(1, K - 1)} | {1 + (k % K) for k in case["ks"]})
         occ = e2e.to_np(ref.occupation[-1])
 
         def bit_check(counter):
